@@ -28,8 +28,8 @@ def high_level_kinds(m):
         ch = child_paths(m, k)
         if any(v == "array" for v in ch.values()):
             out.append(k)
-    if len(out) < 10:
-        raise AnalysisError(f"only {len(out)} high-level kinds found (floor 10)")
+    if len(out) < 7:
+        raise AnalysisError(f"only {len(out)} high-level kinds found (floor 7)")
     return out
 
 
@@ -486,8 +486,8 @@ if not are_shape_components_equal($arg.shape[{ia}], $lens[{ax}]):
 SPEC = Spec(
     prop="C02",
     rules=[r_total, r_meta, r_consume, r_bind, r_sibling, r_domain, r_sibling_adv, r_reshape_passthrough, r_concat_offsets, r_einsum_broadcast_first],
-    floors={"R02-TOTAL": 30, "R02-META": 70, "R02-CONSUME": 20, "R02-BIND": 14,
-            "R02-DOMAIN": 3, "R02-SIBLING": 4},
+    floors={"R02-TOTAL": 21, "R02-META": 49, "R02-CONSUME": 18, "R02-BIND": 14,
+            "R02-DOMAIN": 2, "R02-SIBLING": 4},
     explanation=(
         "R02-TOTAL: every high-level kind (derived from the class table: concrete "
         "array kinds with array-valued operands that are not inputs, index "
